@@ -42,7 +42,8 @@ TRUSTED_BASE = [
     "the 1900-line Colang 1.0 line parser (colang_parser.py) is not modelled: its output for generated sources is compared with `V1Struct.compile` of the AST",
 ]
 ASSUMPTIONS = [
-    "structured subset only: user/bot/execute/set/if-else/while/break/continue/do; no when/else-when (branch), labels/goto, check/stop, flow parameters, priorities other than 1.0, extension flows",
+    "kind llm: llm_flows.co + generated self-check style rails; object paths ($config.x.y, $event.x, $generation_options.x.y) are flattened; an unguarded attribute path through None raises in Python but reads None in the model (shipped flows guard)",
+    "kinds fn/rt — structured subset only: user/bot/execute/set/if-else/while/break/continue/do; no when/else-when (branch), labels/goto, check/stop, flow parameters, priorities other than 1.0, extension flows",
     "context values are None/bool/int/str; expressions do not mention $event/$config/$last_user_message/$last_bot_message",
     "every while body starts with a step statement (the real slide does not terminate otherwise)",
     "uids are modelled by a counter (they are never part of a decision)",
@@ -53,6 +54,11 @@ INTENTS_EXTRA = ["zz unknown", "zz other"]
 
 def static_tie():
     return tr.static_tie()
+
+
+def translate():
+    """Generated/LlmFlowsV1.lean: llm_flows.co compiled by the repo's parser, as Lean data (every run)."""
+    return tr.run()
 
 
 # ----------------------------------------------------------------------------- generator: programs
@@ -731,6 +737,7 @@ def _bots(stmts):
 def gen_cases(rng, tier):
     n_prog = 170 if tier == "quick" else 4000
     n_chain = 45 if tier == "quick" else 900
+    n_llm = 70 if tier == "quick" else 1500
     cases = []
     for i in range(n_prog + n_chain):
         chain = i >= n_prog
@@ -741,6 +748,8 @@ def gen_cases(rng, tier):
             h = g_history(rng, flows, mode)
             kind = "rt" if rng.random() < 0.12 else "fn"
             cases.append({"kind": kind, "flows": flows, "history": h, "seed": rng.randrange(1 << 30)})
+    sub = random.Random(rng.randrange(1 << 30))
+    cases.extend(g_llm_case(sub) for _ in range(n_llm))
     return cases
 
 
@@ -829,9 +838,9 @@ def canon_steps(steps):
     return out
 
 
-def decide(history_real, cfgs):
+def decide(history_real, cfgs, rails_config=None):
     try:
-        return {"ok": canon_steps(_M.fl.compute_next_steps(copy.deepcopy(history_real), cfgs, None, []))}
+        return {"ok": canon_steps(_M.fl.compute_next_steps(copy.deepcopy(history_real), cfgs, rails_config, []))}
     except (AssertionError, IndexError):
         return {"exc": "index"}
     except KeyError:
@@ -962,7 +971,236 @@ def from_real_event(e):
     return {"e": "other", "ty": t}
 
 
+# ----------------------------------------------------------------------------- kind "llm": the shipped rails pipeline
+
+RAIL_SRC = """
+define flow {name}
+  $allowed = execute {act}
+  if not $allowed
+    if $config.enable_rails_exceptions
+      create event {exc}(message="blocked by {name}")
+    else
+      bot refuse to respond
+    stop
+"""
+REWRITE_SRC = """
+define flow {name}
+  ${var} = execute {act}
+"""
+DIALOG_SRC = """
+define flow greeting
+  user express greeting
+  bot express greeting
+  bot ask how are you
+
+define flow goodbye
+  user say bye
+  $byes = 1
+  bot say bye
+"""
+_SKIP_KEYS = {"uid", "event_created_at", "source_uid", "type", "action_uid", "action_finished_at", "action_params", "events", "return_value",
+              "is_success", "failure_reason", "is_system_action", "action_result_key", "action_name", "status"}
+
+
+def g_llm_case(rng):
+    n_in, n_out = rng.choice([0, 1, 1, 2, 2, 3]), rng.choice([0, 0, 1, 1, 2])
+    verd = lambda: rng.choice(["accept", "accept", "accept", "reject", "rewrite"])  # noqa: E731
+    go = None
+    if rng.random() < 0.4:
+        go = {k: rng.random() < 0.7 for k in ("input", "output", "dialog", "retrieval")}
+    return {"kind": "llm", "seed": rng.randrange(1 << 30),
+            "in": [verd() for _ in range(n_in)], "out": [verd() for _ in range(n_out)],
+            "retrieval": rng.random() < 0.25, "gen_opts": go, "gen_opts_event": go is not None or rng.random() < 0.3,
+            "exceptions": rng.random() < 0.2, "dialog": rng.random() < 0.7,
+            "turns": [rng.choice(["express greeting", "express greeting", "say bye", "unknown thing"]) for _ in range(rng.choice([1, 1, 2]))],
+            "bot_message_given": rng.random() < 0.15, "flows": [], "history": []}
+
+
+def llm_setup(case):
+    """source (llm_flows.co + generated rails + dialog flows), flow-config factory, rails_config object"""
+    src = tr.read_source(tr.LLM_FLOWS)
+    in_names, out_names = [], []
+    extra = ""
+    for i, v in enumerate(case["in"]):
+        name = f"check input {i}"
+        in_names.append(name)
+        extra += (REWRITE_SRC.format(name=name, var="user_message", act=f"rewrite_in_{i}") if v == "rewrite"
+                  else RAIL_SRC.format(name=name, act=f"check_in_{i}", exc="InputRailException"))
+    for i, v in enumerate(case["out"]):
+        name = f"check output {i}"
+        out_names.append(name)
+        extra += (REWRITE_SRC.format(name=name, var="bot_message", act=f"rewrite_out_{i}") if v == "rewrite"
+                  else RAIL_SRC.format(name=name, act=f"check_out_{i}", exc="OutputRailException"))
+    ret_names = []
+    if case["retrieval"]:
+        ret_names = ["check retrieval"]
+        extra += "\ndefine flow check retrieval\n  $relevant_chunks = execute filter_chunks\n"
+    if case["dialog"]:
+        extra += DIALOG_SRC
+    NS = types.SimpleNamespace
+    rails_config = NS(rails=NS(input=NS(flows=in_names), output=NS(flows=out_names), retrieval=NS(flows=ret_names)),
+                      enable_rails_exceptions=case["exceptions"])
+    return src, extra, rails_config
+
+
+def llm_drive(case, cfgs, rails_config):
+    """The loop of RuntimeV1_0.generate_events with scripted actions (and the repo's own create_event)."""
+    from nemoguardrails.actions.core import create_event
+
+    fl = _M.fl
+    hist = []
+    NS = types.SimpleNamespace
+    if case["gen_opts_event"]:
+        go = case["gen_opts"]
+        hist.append({"type": "ContextUpdate", "data": {"generation_options": None if go is None else NS(rails=NS(**go))}})
+    if case["bot_message_given"]:
+        hist.append({"type": "ContextUpdate", "data": {"bot_message": "given bot message"}})
+    loop = asyncio.new_event_loop()
+    n_msg = [0]
+
+    def act_result(name, params):
+        """(return_value, events, context_updates)"""
+        if name == "create_event":
+            res = loop.run_until_complete(create_event(event=params["event"], context=fl.compute_context(hist)))
+            evs = [{k: v for k, v in e.items() if k not in ("uid", "event_created_at", "source_uid")} for e in res.events]
+            return None, evs, {}
+        if name.startswith("check_in_"):
+            return case["in"][int(name.rsplit("_", 1)[1])] != "reject", [], {}
+        if name.startswith("check_out_"):
+            return case["out"][int(name.rsplit("_", 1)[1])] != "reject", [], {}
+        if name.startswith("rewrite_"):
+            return "rewritten by " + name, [], {}
+        if name == "filter_chunks":
+            return "filtered chunks", [], {}
+        if name == "generate_user_intent":
+            return None, [{"type": "UserIntent", "intent": intent[0]}], {}
+        if name == "generate_next_step":
+            return None, [{"type": "BotIntent", "intent": "general response"}], {}
+        if name == "retrieve_relevant_chunks":
+            return None, [], {"relevant_chunks": "some chunks"}
+        if name == "generate_bot_message":
+            n_msg[0] += 1
+            last_bot = next((e["intent"] for e in reversed(hist) if e["type"] == "BotIntent"), None)
+            if last_bot == "refuse to respond":
+                # like the real action for a predefined message: the text is not checked by the output rails again
+                return None, [{"type": "BotMessage", "text": "I'm sorry, I can't respond to that."}], {"skip_output_rails": True}
+            return None, [{"type": "BotMessage", "text": f"bot text {n_msg[0]}"}], {}
+        return None, [], {}
+
+    intent = [None]
+    try:
+        for t, it in enumerate(case["turns"]):
+            intent[0] = it
+            hist.append({"type": "UtteranceUserActionFinished", "final_transcript": f"user text {t}"})
+            while len(hist) < 260:
+                last = hist[-1]
+                if last["type"] == "StartInternalSystemAction":
+                    rv, evs, cu = act_result(last["action_name"], last["action_params"])
+                    ctx = fl.compute_context(hist)
+                    if last["action_result_key"]:
+                        cu = dict(cu, **{last["action_result_key"]: rv})
+                    nxt = []
+                    if cu and any(ctx.get(k) != v for k, v in cu.items()):
+                        nxt.append({"type": "ContextUpdate", "data": cu})
+                    nxt.append({"type": "InternalSystemActionFinished", "action_name": last["action_name"], "status": "success",
+                                "action_params": last["action_params"], "action_result_key": last["action_result_key"],
+                                "is_success": True, "return_value": rv, "events": evs})
+                    nxt.extend(evs)
+                else:
+                    steps = fl.compute_next_steps(copy.deepcopy(hist), cfgs, rails_config, [])
+                    nxt = [{k: v for k, v in e.items() if k not in ("uid", "event_created_at", "source_uid")} for e in steps]
+                    if not nxt:
+                        nxt = [{"type": "Listen"}]
+                hist.extend(nxt)
+                if nxt[-1]["type"] == "Listen":
+                    break
+    except Exception as e:  # noqa
+        return hist, type(e).__name__ + ": " + str(e)[:120]
+    finally:
+        loop.close()
+    return hist, None
+
+
+def llm_canon_event(e, paths):
+    t = e["type"]
+    if t == "UserIntent":
+        return {"e": "user", "i": e["intent"]}
+    if t == "BotIntent":
+        return {"e": "bot", "i": e["intent"]}
+    if t == "InternalSystemActionFinished":
+        return {"e": "fin", "name": e["action_name"], "ok": e["status"] == "success"}
+    if t == "StartInternalSystemAction":
+        return {"e": "start"}
+    if t == "ContextUpdate":
+        d = []
+        for k, v in e["data"].items():
+            if k in tr.OBJECT_VARS:
+                d.append([k, None if v is None else True])
+                if v is not None:
+                    d.extend(tr.flatten_object(k, v, paths))
+            else:
+                d.append([k, tr.val_to_model(v)])
+        return {"e": "ctx", "d": d}
+    return {"e": "other", "ty": t, "props": [[k, tr.val_to_model(v)] for k, v in e.items() if k not in _SKIP_KEYS]}
+
+
+def run_impl_llm(case):
+    obs = {"llm": True}
+    with contextlib.redirect_stdout(io.StringIO()):
+        src, extra, rails_config = llm_setup(case)
+        obs["src"] = extra
+        full = src + "\n" + extra
+        try:
+            used_cfgs = load_configs(full)
+            n_llm = len(load_configs(src))
+            mc_all, why = model_cfgs(used_cfgs)
+        except Exception as e:  # noqa
+            return dict(obs, parse_exc=type(e).__name__ + ": " + str(e)[:200])
+        obs["unsupported"] = why
+        if mc_all is None:
+            obs["mcfgs"] = None
+            return obs
+        obs["mcfgs"] = mc_all[n_llm:]
+        obs["llm_names"] = [c["id"] for c in mc_all[:n_llm]]
+        paths = tr.expr_vars(mc_all, set())
+        try:
+            obs["config"] = tr.flatten_object("config", rails_config, paths)
+            real, exc = llm_drive(case, load_configs(full), rails_config)
+            obs["drive_exc"] = exc
+            obs["history"] = [llm_canon_event(e, paths) for e in real]
+        except tr.Unsupported as e:
+            return dict(obs, unsupported="history/config value outside the model: " + str(e), mcfgs=None)
+        n = len(real)
+        rng = random.Random(case["seed"])
+        used = [decide(real[:k], used_cfgs, rails_config) for k in range(n + 1)]
+        order = list(range(n + 1))
+        rng.shuffle(order)
+        again = {k: decide(real[:k], used_cfgs, rails_config) for k in order}
+        obs["used"] = used
+        obs["again_diff"] = [k for k in range(n + 1) if again[k] != used[k]]
+        ks = range(n + 1) if n <= 25 else sorted(rng.sample(range(n + 1), 25))
+        obs["fresh_diff"] = [[k, d, used[k]] for k in ks for d in [decide(real[:k], load_configs(full), rails_config)] if d != used[k]]
+        mc2, _ = model_cfgs(used_cfgs)
+        obs["cfgs_changed_by_use"] = mc2 != mc_all
+        obs["zombie"] = [False] * (n + 1)
+        obs["slides"] = []
+        obs["types"] = sorted({e["type"] for e in real})
+        turns, cur = [], None
+        for e in real:
+            if e["type"] == "UtteranceUserActionFinished":
+                cur = []
+                turns.append(cur)
+            elif e["type"] == "StartInternalSystemAction" and cur is not None:
+                cur.append(e["action_name"])
+            elif e["type"] == "Listen" and cur is not None:
+                cur.append("<listen>")
+        obs["actions"] = turns
+    return obs
+
+
 def run_impl(case):
+    if case["kind"] == "llm":
+        return run_impl_llm(case)
     obs = {}
     src = render(case["flows"])
     obs["src"] = src
@@ -1044,6 +1282,8 @@ def run_impl(case):
 def model_requests(case, obs):
     if "parse_exc" in obs or obs.get("mcfgs") is None or "rt_skip" in obs:
         return []
+    if case["kind"] == "llm":
+        return [{"m": "C14.steps", "llm": True, "flows": obs["mcfgs"], "history": obs["history"], "repaired": True, "config": obs["config"]}]
     reqs = [{"m": "C14.steps", "flows": obs["mcfgs"], "history": obs["history"], "repaired": True}]
     for f in case["flows"]:
         reqs.append({"m": "C14.compile", "prog": prog_for_model(f["body"])})
@@ -1099,7 +1339,46 @@ def _canon_model_res(b):
 
 # ----------------------------------------------------------------------------- oracle
 
+def oracle_llm(case, obs):
+    """reuse + the documented order of the pipeline: input rails run in the configured order, stop at the first
+    rejecting one, and a rejected input is never handed to generate_user_intent (guardrails-process docs)."""
+    if "parse_exc" in obs:
+        return "llm_flows.co + generated rails do not parse: " + obs["parse_exc"]
+    if obs.get("unsupported"):
+        return "the shipped llm_flows.co pipeline uses a construct outside the model: " + obs["unsupported"]
+    if obs.get("drive_exc"):
+        return "FOLLOW: compute_next_steps raised while driving the rails pipeline: " + obs["drive_exc"]
+    if obs.get("cfgs_changed_by_use"):
+        return "REUSE: serving histories changed the shared flow configs"
+    if obs["again_diff"]:
+        return f"REUSE: the same history decided differently on a used flow-config set (prefix {obs['again_diff'][0]})"
+    if obs["fresh_diff"]:
+        k, d, u = obs["fresh_diff"][0]
+        return f"REUSE: prefix {k}: fresh flow configs decide {d}, used ones {u}"
+    go = case["gen_opts"] if case["gen_opts_event"] else None
+    enabled = bool(case["in"]) and (go is None or go["input"])
+    exp = []
+    rejected = False
+    if enabled:
+        for i, v in enumerate(case["in"]):
+            exp.append(("rewrite_in_%d" if v == "rewrite" else "check_in_%d") % i)
+            if v == "reject":
+                rejected = True
+                break
+    for t, acts in enumerate(obs["actions"]):
+        if "<listen>" not in acts:
+            continue  # the event cap of the driver cut this turn short
+        got = [a for a in acts if a.startswith("check_in_") or a.startswith("rewrite_in_")]
+        if got != exp:
+            return f"FOLLOW: turn {t}: input rails run {got}, configured order up to the first reject is {exp}"
+        if rejected and "generate_user_intent" in acts:
+            return f"FOLLOW: turn {t}: a rejected input reached generate_user_intent"
+    return None
+
+
 def oracle(case, obs):
+    if case["kind"] == "llm":
+        return oracle_llm(case, obs)
     if "parse_exc" in obs:
         return "generated structured source does not parse: " + obs["parse_exc"]
     if obs.get("unsupported"):
@@ -1224,6 +1503,8 @@ def signature(case, obs, msg):
 def nontrivial(case, obs):
     if "used" not in obs:
         return False
+    if case["kind"] == "llm":
+        return len(case["in"]) + len(case["out"]) >= 1 and sum(1 for d in obs["used"] if "ok" in d and d["ok"]) >= 5
     s = json.dumps(case["flows"])
     structured = '"if"' in s or '"while"' in s or '"do"' in s
     nd = sum(1 for d in obs["used"] if "ok" in d and d["ok"])
@@ -1232,6 +1513,14 @@ def nontrivial(case, obs):
 
 def tags(case, obs):
     t = ["kind:" + case["kind"]]
+    if case["kind"] == "llm":
+        if "used" not in obs:
+            return t + ["llm:skipped"]
+        t += ["llm:in%d" % len(case["in"]), "llm:out%d" % len(case["out"]), "llm:hist%d" % (len(obs["history"]) // 20 * 20)]
+        t += ["llm:verdict:" + v for v in sorted(set(case["in"] + case["out"]))]
+        t += ["llm:genopts" if case["gen_opts"] else "llm:nogenopts", "llm:dialog" if case["dialog"] else "llm:nodialog"]
+        t += ["llm:ev:" + x for x in obs.get("types", []) if x in ("BotMessage", "StartUtteranceBotAction", "UserMessage", "InputRailException", "OutputRailException")]
+        return t
     if "used" not in obs:
         return t + ["skipped"]
     s = json.dumps(case["flows"])
@@ -1255,6 +1544,19 @@ def tags(case, obs):
 
 
 def shrink(case):
+    if case["kind"] == "llm":
+        if len(case["turns"]) > 1:
+            yield dict(case, turns=case["turns"][:-1])
+        if case["in"]:
+            yield dict(case, **{"in": case["in"][:-1]})
+        if case["out"]:
+            yield dict(case, out=case["out"][:-1])
+        for k in ("retrieval", "exceptions", "dialog", "bot_message_given"):
+            if case[k]:
+                yield dict(case, **{k: False})
+        if case["gen_opts"]:
+            yield dict(case, gen_opts=None)
+        return
     h = case["history"]
     for i in range(len(h) - 1, -1, -1):
         yield dict(case, history=h[:i] + h[i + 1:])
